@@ -22,12 +22,22 @@ from harness.tranp_env import REPO
 LEAF = {1: 'def make() -> int:\n\treturn 1\n', 2: "def make() -> str:\n\treturn 'x'\n"}
 
 
+# file stems of the abstract modules: every dotted path is a substring of the paths listed before it in the target order
+# (vm.n in vm.n1 in vm.n10 in vm.n100), so that nothing in the code under test may select a module by partial path match
+STEM = {'a': 'n10', 'b': 'n1', 'c': 'n', 'd': 'n100'}
+UNSTEM = {v: k for k, v in STEM.items()}
+
 BODY_CLASS = {1: 1, 2: 2, 3: 1}  # variant 3 = variant 1 with a different layout (same emitted text, other file hash)
 
 
 def source_of(graph: str, m: str, v: int) -> str:
+	import re
+	return re.sub(r'\bvm\.([abcd])\b', lambda mm: f'vm.{STEM[mm.group(1)]}', _source_of(graph, m, v))
+
+
+def _source_of(graph: str, m: str, v: int) -> str:
 	if v == 3:
-		text = source_of(graph, m, 1)
+		text = _source_of(graph, m, 1)
 		# layout-only edit: a blank line before the last statement / definition and one at the end
 		head, sep, last = text.rstrip('\n').rpartition('\n\n') if '\n\n' in text.rstrip('\n') else ('', '', text.rstrip('\n'))
 		return (f'{head}\n\n\n{last}\n\n' if sep else f'\n{last}\n\n')
@@ -78,7 +88,7 @@ class World:
 			'grammar': os.path.join(REPO, 'data/grammar.lark'),
 			'template_dirs': [os.path.join(REPO, 'data/cpp/template')],
 			'trans_mapping': os.path.join(REPO, 'data/i18n.yml'),
-			'input_globs': [f'vm/{m}.py' for m in self.targets],
+			'input_globs': [f'vm/{STEM[m]}.py' for m in self.targets],
 			'exclude_patterns': [],
 			'output_dirs': ['out/'],
 			'output_language': 'cpp:h',
@@ -93,10 +103,10 @@ class World:
 
 	# -- operations ------------------------------------------------------------------------------------------
 	def src_path(self, m: str) -> str:
-		return os.path.join(self.root, 'vm', f'{m}.py')
+		return os.path.join(self.root, 'vm', f'{STEM[m]}.py')
 
 	def out_path(self, m: str) -> str:
-		return os.path.join(self.out_dir, 'vm', f'{m}.h')
+		return os.path.join(self.out_dir, 'vm', f'{STEM[m]}.h')
 
 	def edit(self, m: str, v: int) -> None:
 		with open(self.src_path(m), 'w') as f:
@@ -133,10 +143,11 @@ class World:
 	def cache_files(self, kind: str, m: str = '') -> list[str]:
 		if kind == 'parser':
 			return sorted(glob.glob(os.path.join(self.cache_dir, 'parser.cache-*.bin')))
-		files = sorted(glob.glob(os.path.join(self.cache_dir, 'vm', f'{m}-*.json')))
+		stem = STEM[m]
+		files = sorted(glob.glob(os.path.join(self.cache_dir, 'vm', f'{stem}-*.json')))
 		if kind == 'sym':
-			return [f for f in files if os.path.basename(f).startswith(f'{m}-symbols-')]
-		return [f for f in files if not os.path.basename(f).startswith(f'{m}-symbols-')]
+			return [f for f in files if os.path.basename(f).startswith(f'{stem}-symbols-')]
+		return [f for f in files if not os.path.basename(f).startswith(f'{stem}-symbols-')]
 
 	def truncate(self, kind: str, m: str, fraction: float = 0.5) -> None:
 		files = self.cache_files(kind, m)
@@ -190,12 +201,12 @@ class ColdOracle:
 		key = (m, tuple(sorted(vector.items())))
 		if key not in self.memo:
 			from harness.tranp_env import Env
-			sources = {f'vm.{d}': source_of(self.graph, d, v) for d, v in vector.items()}
+			sources = {f'vm.{STEM[d]}': source_of(self.graph, d, v) for d, v in vector.items()}
 			import tempfile
 			cold_dir = tempfile.mkdtemp(prefix='cold-cache-', dir=os.getcwd())  # cold by construction: empty directory
 			try:
 				env = Env(sources=sources, cache_dir=cold_dir, cache_enabled=True)
-				text = env.transpile(f'vm.{m}')
+				text = env.transpile(f'vm.{STEM[m]}')
 			finally:
 				shutil.rmtree(cold_dir, ignore_errors=True)
 			self.memo[key] = text.partition('\n')[2]
